@@ -127,4 +127,142 @@ theorem relSum_eq_expReleased {s : State} (inv : StoreInv s) (to : Addr) (froms 
         exact List.mem_map.mpr ⟨k, hk, rfl⟩
     · simp [hc] at hne
 
+/-! ### an accept never fails while the holder covers the records -/
+
+theorem sumRecs_nonneg {l : List ((Addr × Suffix) × Record)} {d : Denom}
+    (hn : ∀ x ∈ l, 0 ≤ Coins.amountOf x.2.coins d) : 0 ≤ sumRecs l d := by
+  induction l with
+  | nil => simp [sumRecs]
+  | cons h t ih =>
+    obtain ⟨k, r⟩ := h
+    have h1 := hn (k, r) (List.mem_cons_self ..)
+    have h2 := ih (fun x hx => hn x (List.mem_cons_of_mem _ hx))
+    simp only at h1
+    simp only [sumRecs]; omega
+
+theorem le_sumRecs_of_mem {l : List ((Addr × Suffix) × Record)} {e : (Addr × Suffix) × Record} {d : Denom}
+    (he : e ∈ l) (hn : ∀ x ∈ l, 0 ≤ Coins.amountOf x.2.coins d) : Coins.amountOf e.2.coins d ≤ sumRecs l d := by
+  induction l with
+  | nil => simp at he
+  | cons h t ih =>
+    obtain ⟨k, r⟩ := h
+    have hpos : ∀ x ∈ t, 0 ≤ Coins.amountOf x.2.coins d := fun x hx => hn x (List.mem_cons_of_mem _ hx)
+    have hsum := sumRecs_nonneg hpos
+    have h1 := hn (k, r) (List.mem_cons_self ..)
+    simp only at h1
+    simp only [sumRecs]
+    rcases List.mem_cons.mp he with rfl | he
+    · simp only; omega
+    · have := ih he hpos
+      omega
+
+theorem bankTransfers_bypass_succeeds {s : State} {f t : Addr} {c : Coins}
+    (hfunds : ∀ d ∈ Coins.denoms c, Coins.amountOf c d ≤ Ledger.bal s.bank f d)
+    (hm : markerAllows s f c = true) :
+    bankTransfers s true [⟨f, t, c⟩] = .ok { s with bank := Ledger.move s.bank f t c } := by
+  have hsub : subUnlockedCoins s.bank f c = .ok (Ledger.debit s.bank f c) := by
+    unfold subUnlockedCoins
+    rw [if_pos]
+    rw [List.all_eq_true]
+    intro d hd
+    simpa using hfunds d hd
+  have hm' : markerAllows { s with bank := Ledger.debit s.bank f c } f c = true := hm
+  simp [bankTransfers, debitAll, hsub, applyRestrictions, restrictionChain, hm', sendRestrictionFn, creditAll,
+    addCoins, Ledger.move]
+
+theorem markerAllows_holder (s : State) (c : Coins) : markerAllows s s.holder c = true := by
+  unfold markerAllows
+  rw [List.all_eq_true]
+  intro d _
+  simp
+
+theorem acceptLoop_succeeds (to : Addr) (froms : List Addr) :
+    ∀ (rs : List Record) (s : State) (rel : Coins), StoreInv s → Snapshot s to rs → HolderCovers s →
+      ∃ s' rel', acceptLoop s to froms rs rel = .ok (s', rel') := by
+  intro rs
+  induction rs with
+  | nil => intro s rel _ _ _; exact ⟨s, rel, rfl⟩
+  | cons r rest ih =>
+    intro s rel inv snap hcov
+    have hstored := snap.stored r (List.mem_cons_self ..)
+    have hmem := mem_of_kvGet hstored
+    have hnn : ∀ d, 0 ≤ Coins.amountOf r.coins d := inv.nonneg _ hmem
+    unfold acceptLoop
+    cases haf : r.acceptFrom froms with
+    | none => exact ih s rel inv snap.tail hcov
+    | some r1 =>
+      simp only
+      obtain ⟨hk1, hc1, hu1, hnow⟩ := acceptFrom_some haf
+      cases hfa : r1.isFullyAccepted
+      · simp only [Bool.false_eq_true, if_false]
+        generalize hr2 : ({ r1 with declined := isAutoDecline s to r1.unacc } : Record) = r2
+        have hk2 : keyOf r2 = keyOf r := by rw [← hr2]; exact hk1
+        have hc2 : r2.coins = r.coins := by rw [← hr2]; exact hc1
+        have hfa2 : r2.isFullyAccepted = false := by rw [← hr2]; exact hfa
+        apply ih _ rel (inv_setQR inv to r2 (by rw [hc2]; exact hnn)) (snap.after_set hk2 rfl)
+        intro d
+        rw [outstanding_setQR, hk2, coinsAt_of_get hstored, hfa2, hc2, setQR_bank, setQR_holder]
+        have := hcov d
+        simp only [Bool.false_eq_true, if_false]
+        omega
+      · simp only [if_true]
+        have hfunds : ∀ d ∈ Coins.denoms r1.coins, Coins.amountOf r1.coins d ≤ Ledger.bal s.bank s.holder d := by
+          intro d _
+          rw [hc1]
+          have h1 := hcov d
+          have h2 : Coins.amountOf r.coins d ≤ sumRecs s.recs d :=
+            le_sumRecs_of_mem (e := ((to, keyOf r), r)) hmem (fun x hx => inv.nonneg x hx d)
+          unfold outstanding at h1
+          omega
+        rw [bankTransfers_bypass_succeeds hfunds (markerAllows_holder s _)]
+        simp only
+        have inv1 : StoreInv { s with bank := Ledger.move s.bank s.holder to r1.coins, qout := Coins.add s.qout r1.coins } :=
+          inv_with_bank_qout inv _ _
+        apply ih _ _ (inv_setQR inv1 to r1 (by rw [hc1]; exact hnn)) (snap.after_set hk1 rfl)
+        intro d
+        rw [outstanding_setQR, hk1, hfa, setQR_bank, setQR_holder]
+        have hca : coinsAt { s with bank := Ledger.move s.bank s.holder to r1.coins, qout := Coins.add s.qout r1.coins } to (keyOf r) = r.coins :=
+          coinsAt_of_get hstored
+        rw [hca]
+        show outstanding s d - _ + (if true = true then 0 else _) ≤ Ledger.bal (Ledger.move s.bank s.holder to r1.coins) s.holder d
+        rw [Ledger.bal_move, hc1]
+        have := hcov d
+        have := hnn d
+        simp only [if_true]
+        split <;> omega
+
+theorem expReleased_nonneg {recs : List ((Addr × Suffix) × Record)} (to : Addr) (froms : List Addr) {d : Denom}
+    (hn : ∀ x ∈ recs, 0 ≤ Coins.amountOf x.2.coins d) : 0 ≤ expReleased recs to froms d := by
+  induction recs with
+  | nil => simp [expReleased]
+  | cons h t ih =>
+    obtain ⟨k, r⟩ := h
+    have h1 := hn (k, r) (List.mem_cons_self ..)
+    have h2 := ih (fun x hx => hn x (List.mem_cons_of_mem _ hx))
+    simp only at h1
+    simp only [expReleased]
+    split <;> omega
+
+/-- the coins of a completed record are part of what the accept releases -/
+theorem le_expReleased_of_mem {recs : List ((Addr × Suffix) × Record)} {to : Addr} {k : Suffix} {r : Record}
+    {froms : List Addr} {d : Denom} (he : ((to, k), r) ∈ recs) (hc : completes froms r = true)
+    (hn : ∀ x ∈ recs, 0 ≤ Coins.amountOf x.2.coins d) :
+    Coins.amountOf r.coins d ≤ expReleased recs to froms d := by
+  induction recs with
+  | nil => simp at he
+  | cons h t ih =>
+    obtain ⟨k2, r2⟩ := h
+    have hpos : ∀ x ∈ t, 0 ≤ Coins.amountOf x.2.coins d := fun x hx => hn x (List.mem_cons_of_mem _ hx)
+    have hrest := expReleased_nonneg to froms hpos
+    have h2 := hn (k2, r2) (List.mem_cons_self ..)
+    simp only at h2
+    simp only [expReleased]
+    rcases List.mem_cons.mp he with he | he
+    · injection he with hk hr
+      subst hk hr
+      simp only [hc, and_self, if_true]
+      omega
+    · have := ih he hpos
+      split <;> omega
+
 end PvProofs.QuarL
